@@ -59,6 +59,11 @@ fn main() {
         }
         return;
     }
+    if prop == "squash-probe" {
+        std::panic::set_hook(Box::new(|_| {}));
+        props::c17::squash_probe(&args[2]);
+        return;
+    }
     if prop == "det-dump" {
         std::panic::set_hook(Box::new(|_| {}));
         props::c16::det_dump(&args[2], args[3].parse().unwrap_or(1), &args[4]);
